@@ -273,7 +273,10 @@ func init() {
 		return nil
 	})
 	H("Go", func(fr *frame, args []value) value {
-		fr.i.path.sched.spawn(fr, token.NoPos, args[1], nil)
+		s := fr.i.path.sched
+		s.harnessGos++
+		fr.i.path.note("harness goroutine %d is thread %d", s.harnessGos, len(s.threads))
+		s.spawn(fr, token.NoPos, args[1], nil)
 		return nil
 	})
 	H("Wait", func(fr *frame, args []value) value {
